@@ -60,6 +60,7 @@ def _step_fn(prog):
 
 
 def X2(ctx):
+    """Who-may-write on the exploration state of branches (Schedule/Load/Spurious fields, path::Thread values) and the values step() writes."""
     prog = ctx.prog
     n = 0
     for (adt, field), allowed0 in X2_ALLOWED.items():
@@ -199,6 +200,7 @@ def X3(ctx):
 
 
 def X4(ctx):
+    """Path::step resets pos/exploring/skipping; Execution::step returns None iff exhausted; Builder::check stops on None."""
     prog = ctx.prog
     fk = _step_fn(prog)
     fn = need_fn(ctx, "X4", fk)
@@ -264,6 +266,7 @@ def X4(ctx):
 # ---------------------------------------------------------------------------------------- C13 (replay discipline)
 
 def Z3(ctx):
+    """Replay discipline: branch entries created only when the recorded path is exhausted; each branch_* consumes exactly one decision; wrong kind is reported."""
     prog = ctx.prog
     n = 0
     for m in ("branch_thread", "branch_spurious"):
@@ -347,6 +350,7 @@ def Z3(ctx):
 # ---------------------------------------------------------------------------------------- C15
 
 def E1(ctx):
+    """Schedule::backtrack arms no alternative at the bound, asserts preemptions <= bound, arms the racing thread if enabled else all."""
     prog = ctx.prog
     fk = SCH + "::backtrack"
     fn = need_fn(ctx, "E1", fk)
@@ -396,6 +400,7 @@ def E1(ctx):
 
 
 def E2(ctx):
+    """preemptions() = stored + 1 iff the branch switched away from a thread that could continue; new branches inherit it."""
     prog = ctx.prog
     fk = SCH + "::preemptions"
     fn = need_fn(ctx, "E2", fk)
@@ -513,6 +518,7 @@ def E3(ctx):
 
 
 def E4(ctx):
+    """The conservative extra backtrack points exist exactly under a preemption bound, at the nearest earlier context switch."""
     prog = ctx.prog
     fk = P + "::backtrack"
     fn = need_fn(ctx, "E4", fk)
@@ -546,6 +552,7 @@ def E4(ctx):
 # ---------------------------------------------------------------------------------------- C19
 
 def B1(ctx):
+    """New branches record the exploring flag; backtrack only into exploring branches; the search for a backtrack point skips non-exploring entries."""
     prog = ctx.prog
     n = 0
     for (m, adt) in (("push_load", LOAD), ("branch_spurious", SPUR), ("branch_thread", SCH)):
@@ -712,6 +719,7 @@ def B3(ctx):
 
 
 def B4(ctx):
+    """Thread-limit assertions before creating a thread (Set::new_thread, Scheduler::run)."""
     prog = ctx.prog
     rows = [("rt::thread::Set::new_thread", "assertion failed: self.threads.len() < self.max()", "std::vec::Vec::<T, A>::push"),
             ("rt::scheduler::Scheduler::run", "assertion failed: threads.len() < self.max_threads", "rt::scheduler::spawn_thread")]
